@@ -97,6 +97,7 @@ AddObject ==
 SetAttrIn(c, e) ==
   IF e.part = "origin_reference" THEN [c EXCEPT !.origin = e.origin]
   ELSE IF e.part = "name" THEN [c EXCEPT !.name = e.name]
+  ELSE IF e.part = "dataset_name" THEN c
   ELSE LET S == { i \in DOMAIN c.attrs : c.attrs[i].label = e.label } IN
     IF S = {}
     THEN [c EXCEPT !.attrs = Append(@, IF e.part = "value"
@@ -181,7 +182,17 @@ CanonBreach(fid) ==
   \/ (\E i \in DOMAIN clf : (clf[i].fid = fid /\ ~HcNameOk(clf[i].fh_id)))
   \/ \E i \in DOMAIN cobj : (cobj[i].fid = fid /\ (~HcNameOk(cobj[i].name)
                                  \/ (\E a \in DOMAIN cobj[i].attrs : ~cobj[i].attrs[a].enum_ok)))
-DataBreach(e) == \E i \in DOMAIN e.frames : \E c \in DOMAIN e.frames[i].chans : e.frames[i].chans[c].srcsigned
+AbsI(x) == IF x < 0 THEN 0 - x ELSE x
+ClearlyNonUniform(vals) ==      \* integer index values whose consecutive differences are more than 10 % apart
+  LET v == [k \in DOMAIN vals |-> LimToInt(vals[k])]
+      d == [k \in 1..(Len(v) - 1) |-> v[k + 1] - v[k]]
+  IN Len(v) >= 3 /\ \E a, b \in DOMAIN d : d[a] # d[b] /\ 10 * AbsI(d[a] - d[b]) > AbsI(d[b])
+FrameIndexed(oid) == \E i \in DOMAIN cobj : cobj[i].oid = oid /\ \E a \in DOMAIN cobj[i].attrs :
+                        cobj[i].attrs[a].label = lINDEXTYPE /\ cobj[i].attrs[a].has_val
+DataBreach(e) ==
+     (\E i \in DOMAIN e.frames : \E c \in DOMAIN e.frames[i].chans : e.frames[i].chans[c].srcsigned)
+  \/ (\E i \in DOMAIN e.frames : e.frames[i].has_rows /\ e.frames[i].index.ok /\ FrameIndexed(e.frames[i].oid)
+                                   /\ ClearlyNonUniform(e.frames[i].index.vals))
 
 LowValid(e) == e.vrl % 2 = 0 /\ e.vrl >= 20 /\ e.vrl <= 16384 /\ (e.out_chunk = 0 \/ e.out_chunk >= e.vrl)
                /\ \A i \in DOMAIN e.recs : e.recs[i].type \in 0..255
